@@ -44,7 +44,7 @@ type c02Op struct {
 	Flags  uint64 // open flags / at-flags
 	Hi     uint64 // garbage for the upper half of int-typed registers (flags)
 	Res    uint64 // openat2: open_how.resolve (RESOLVE_* bits change what the kernel resolves to)
-	Place  string // plain | pend | cross : where the pathname string lives in the tracee
+	Place  string // plain | pend | cross | wo | wospan : where the pathname string lives in the tracee (wo: a page mapped PROT_WRITE only)
 }
 
 type c02Case struct {
@@ -428,12 +428,22 @@ func c02GenCase(rt *rapid.T) c02Case {
 				base1 = ""
 			}
 			op.P1 = genP("p1", base1)
+			// the kernel ignores dirfd for an absolute name: a number that is not open (stale, -1, -EBADF) changes nothing
+			badOK := func(p string) bool {
+				return c02HasDirfd(op.Sys) && op.Sys != "openat2" && strings.HasPrefix(p, "{R}/") && !strings.Contains(p, "/proc/")
+			}
+			if badOK(op.P1) && rapid.IntRange(0, 3).Draw(rt, "badfd1") == 0 {
+				op.D1 = c02Dirfd{Enc: "bad", Slot: rapid.IntRange(0, 3).Draw(rt, "badfd1v")}
+			}
 			if c02TwoPaths(op.Sys) {
 				op.D2, base2 = genD("d2")
 				if slotIsFile[op.D2.Slot] && (op.D2.Enc == "fd" || op.D2.Enc == "fd-garbage") {
 					base2 = ""
 				}
 				op.P2 = genP("p2", base2)
+				if op.Sys != "symlinkat" && badOK(op.P2) && rapid.IntRange(0, 3).Draw(rt, "badfd2") == 0 {
+					op.D2 = c02Dirfd{Enc: "bad", Slot: rapid.IntRange(0, 3).Draw(rt, "badfd2v")}
+				}
 			}
 			if op.Sys == "symlinkat" {
 				op.P2 = rapid.SampledFrom([]string{"tgt", "../x", "/etc/passwd", "{R}/a"}).Draw(rt, "symtarget")
@@ -482,7 +492,7 @@ func c02GenCase(rt *rapid.T) c02Case {
 					op.Flags = 0x200 // AT_REMOVEDIR
 				}
 			}
-			op.Place = rapid.SampledFrom([]string{"plain", "plain", "plain", "pend", "cross"}).Draw(rt, "place")
+			op.Place = rapid.SampledFrom([]string{"plain", "plain", "plain", "pend", "cross", "wo", "wospan"}).Draw(rt, "place")
 			c.Ops = append(c.Ops, op)
 		}
 	}
@@ -661,6 +671,8 @@ func c02DirfdArg(d c02Dirfd) any {
 		return atFdcwdGar
 	case "fd":
 		return 100 + d.Slot
+	case "bad":
+		return []uint64{777, 0xffffffffffffffff, 0x7fffffff, 0xfffffffffffffff7}[d.Slot%4]
 	default:
 		return uint64(0x7eadbeef00000000) + uint64(100+d.Slot)
 	}
@@ -709,6 +721,12 @@ func c02Run(c c02Case, root string, rec *vh.Recorder) error {
 		case "cross":
 			if len(p) >= 2 {
 				return fmt.Sprintf("!cross=%d", s.StrIdx(p))
+			}
+		case "wo":
+			return fmt.Sprintf("!wo=%d", s.StrIdx(p))
+		case "wospan":
+			if len(p) >= 2 {
+				return fmt.Sprintf("!wospan=%d", s.StrIdx(p))
 			}
 		}
 		return s.Str(p)
